@@ -1601,6 +1601,7 @@ class Message(ABC):
                 elif (
                     value._serialized_on_wire
                     or include_default_values
+                    or meta.optional
                     or self._include_default_value_for_oneof(
                         field_name=field_name, meta=meta
                     )
@@ -1892,6 +1893,7 @@ class Message(ABC):
                 elif (
                     value._serialized_on_wire
                     or include_default_values
+                    or meta.optional
                     or self._include_default_value_for_oneof(
                         field_name=field_name, meta=meta
                     )
